@@ -262,3 +262,17 @@ Proof.
   - eexists. split; [vm_compute; reflexivity|]. split; vm_compute; reflexivity.
   - vm_compute. reflexivity.
 Qed.
+
+(* the round trip for an unprivileged owner, restoreDirModes step by step in its real order *)
+Theorem roundtrip_unprivileged_ordered pre umask preserve repro T :
+  umask_keeps_wx umask -> (preserve = false -> umask <= 511) ->
+  is_dir T = true -> wf_treeb T = true -> modes_okb T = true -> benign_tree pre T = true ->
+  exists f', extract_po false pre umask preserve (tar_entries pre repro T) = Ok f' /\
+    forall p, fs_lookup f' p = expected umask preserve T p.
+Proof.
+  intros Hw Hu Hd Hwf Hmo Hbe.
+  destruct (roundtrip_walk_full pre umask preserve repro T Hu Hd Hwf Hmo Hbe) as (f & E & L).
+  pose proof (extract_po_ok false pre umask preserve (tar_entries pre repro T) Hw) as H.
+  rewrite E in H. destruct H as (f' & E' & L'). exists f'. split; [exact E'|].
+  intro p. now rewrite L', L.
+Qed.
